@@ -238,13 +238,48 @@ func (p *Program) LinFact(cond ssa.Value, taken bool, aliases []Alias) string {
 // LinEdge selects If edges whose canonical integer atom (under aliases) is one of wants.
 func (p *Program) LinEdge(aliases []Alias, wants ...string) EdgePred {
 	return func(e EdgeInfo) bool {
-		f := p.LinFact(e.Cond, e.Taken, aliases)
-		if f == "" {
+		try := func(cond ssa.Value, taken bool) bool {
+			f := p.LinFact(cond, taken, aliases)
+			if f == "" {
+				return false
+			}
+
+			for _, w := range wants {
+				if f == w {
+					return true
+				}
+			}
+
 			return false
 		}
 
-		for _, w := range wants {
-			if f == w {
+		if try(e.Cond, e.Taken) || (e.RawCond != nil && e.RawCond != e.Cond && try(e.RawCond, e.Taken)) {
+			return true
+		}
+
+		// what the outcome of a computed flag implies (see impliedConds)
+		for _, ct := range p.impliedConds(e.Cond, e.Taken, 0) {
+			if try(ct.Cond, ct.Truth) {
+				return true
+			}
+		}
+
+		for _, grp := range e.AnyOf {
+			all := len(grp) > 0
+
+			for _, ct := range grp {
+				hit := try(ct.Cond, ct.Truth)
+
+				for _, ic := range p.impliedConds(ct.Cond, ct.Truth, 1) {
+					hit = hit || try(ic.Cond, ic.Truth)
+				}
+
+				if !hit {
+					all = false
+				}
+			}
+
+			if all {
 				return true
 			}
 		}
@@ -275,7 +310,7 @@ func (p *Program) LinEdgeSuccs(f *ssa.Function, aliases []Alias, wants ...string
 			lf := p.LinFact(ifi.Cond, k == 0, aliases)
 			for _, w := range wants {
 				if lf == w {
-					out = append(out, Loc{B: succ})
+					out = append(out, Loc{B: succ, Pred: b})
 				}
 			}
 		}
